@@ -139,6 +139,22 @@ class ChainBuild(Suite):
             dict(classes=[K(0, 'TrainX'), K(1, 'User', meta_inputs=[{'cls': 0}])],
                  files={'t.json': {'tasks': ['@M.*']}}, base={'name': 'main', 'data': {'uses': 't.json as train'}},
                  context=None),
+            # an input that exists only inside a namespace is not visible from the root (and not from a sibling)
+            dict(classes=[K(0, 'Features'), K(1, 'User', meta_inputs=[{'name': 'features'}])],
+                 files={'t.json': {'tasks': ['@M.Features']}},
+                 base={'name': 'main', 'data': {'tasks': ['@M.User'], 'uses': 't.json as ns'}}, context=None),
+            dict(classes=[K(0, 'Features'), K(1, 'User', meta_inputs=[{'name': 'features'}])],
+                 files={'t.json': {'tasks': ['@M.Features']}, 'u.json': {'tasks': ['@M.User']}},
+                 base={'name': 'main', 'data': {'uses': ['t.json as pretrain', 'u.json as train']}}, context=None),
+            # a class excluded by one config is still declared by another one (order: the excluding config first)
+            dict(classes=[K(0, 'Numbers'), K(1, 'Report', meta_inputs=[{'cls': 0}])],
+                 files={'a.json': {'tasks': ['@M.*'], 'excluded_tasks': ['@M.Report']}, 'b.json': {'tasks': ['@M.*']}},
+                 base={'name': 'main', 'data': {'uses': ['a.json as train', 'b.json as valid']}}, context=None),
+            # falsy values: wrong-typed ones are refused like any other, well-typed ones are accepted
+            *[dict(classes=[K(0, 'Abc', params=[P('x', dtype=dt)])], files={},
+                   base={'name': 'm', 'data': {'tasks': ['@M.Abc'], 'x': v}}, context=None)
+              for dt, v in (('int', 0.0), ('int', ''), ('str', 0), ('str', False), ('list', ''), ('list', {}), ('dict', []),
+                            ('int', 0), ('str', ''), ('list', []), ('float', 0.0), ('bool', False), ('int', None))],
             # missing required parameter, dangling input, cycle
             dict(classes=[abc], files={}, base={'name': 'm', 'data': {'tasks': ['@M.Abc']}}, context=None),
             dict(classes=[K(0, 'A', meta_inputs=[{'name': 'nothing'}])], files={},
